@@ -15,7 +15,7 @@ RULE = (
     "labels local and global, branches / calls / conditional branches / address loads / literal loads / data words referring to labels in the "
     "same section, another section or another object, padding whose length is drawn around the range edges of the short forms: 126..130, "
     "252..258, 2040..2052, 4088..4100 bytes, 256 KiB..1 MiB for the long forms) assembled with ppci.api.asm and linked under generated layouts "
-    "(1-3 memories, near and far apart, unaligned bases, SECTIONDATA copies); for every relocation of the inputs the site is located in the "
+    "(1-3 memories, near and far apart, unaligned bases, SECTIONDATA copies; a quarter of the cases through a partial link first), plus a deterministic sweep of pads R-8..R+8 around every field's range edge R forwards and backwards; for every relocation of the inputs the site is located in the "
     "output through the reference placement model, the field is read with the ISA-manual extractor of vf/relocref.py and, for control "
     "transfers, the patched instruction is decoded by llvm-mc; the designated address must equal the symbol's final address (+ addend). "
     "non-trivial = a checked relocation that is not a plain absolute data word and whose site-target distance is > 0; "
@@ -36,7 +36,7 @@ LEVEL_TEXT = (
     "written from the architecture manual and, for branches, by llvm-mc; both must designate the symbol's final address. Distances are drawn "
     "around each field's range edge, so silent truncation shows as a wrong target and correct behaviour shows as a link error."
 )
-REGISTER = False
+REGISTER = True
 
 
 def _quiet():
@@ -82,7 +82,11 @@ def evaluate(case, hist=None, info=None, defer=None):
     except Exception as e:
         raise Discard("layout:%s" % type(e).__name__)
     try:
-        out = link(objs, layout)
+        if case.get("two_stage"):
+            # partial link first, then the final link of its result (same placement as the direct link)
+            out = link([link(objs, partial_link=True)], layout)
+        else:
+            out = link(objs, layout)
     except Exception as e:
         hist["link_raises:%s@%s" % (type(e).__name__, _innermost(e))] += 1
         info["rejected"] = True
@@ -244,14 +248,14 @@ def classify_one(case, msg, det):
     if t == "bl_imm11" and "got" in det:
         # KF3: J1/J2 stay 1, i.e. I1 = I2 = S: only the low 22 bits of the distance are encoded
         d = det["want"] - (det["P"] + 4)
-        if (1 << 22) <= abs(d) < (1 << 24):
+        if (1 << 22) <= abs(d) and -(1 << 24) <= d < (1 << 24):
             low = d % (1 << 22)
             if det["got"] - (det["P"] + 4) == (low if d >= 0 else low - (1 << 22)):
                 return "C11-KF3"
     if t == "b_imm11_imm6" and "got" in det:
         # KF4: S, J1, J2 are all taken from bit 18 of the distance
         d = det["want"] - (det["P"] + 4)
-        if (1 << 18) <= abs(d) < (1 << 20):
+        if (1 << 18) <= abs(d) and -(1 << 20) <= d < (1 << 20):
             low = d & 0x7FFFF
             if det["got"] - (det["P"] + 4) == (low - (1 << 19) if low >> 18 else low):
                 return "C11-KF4"
@@ -340,13 +344,63 @@ def c11_case(draw, targets=tuple(TARGETS)):
         # load-image copy of one section (startup code copies it to RAM)
         ld["memories"][0]["inputs"].append(["sectiondata", draw(st.sampled_from(names))])
         ld["memories"][0]["size"] += bounds[ld["memories"][0]["inputs"][-1][1]]
-    return {"target": target, "prog": prog, "layout": ld, "layout_form": draw(st.sampled_from(["object", "text"])), "scale": scale + "/" + spread}
+    case = {"target": target, "prog": prog, "layout": ld, "layout_form": draw(st.sampled_from(["object", "text"])), "scale": scale + "/" + spread}
+    if draw(st.integers(0, 3)) == 0:
+        case["two_stage"] = True
+    return case
+
+
+# ---------------------------------------------------------------------------
+# deterministic sweep over the range edges of every reference template
+
+# template prefix -> distances (bytes) whose neighbourhood is swept; from the ISA field widths
+EDGES = {
+    "x86_64": {"jmpshort": [128], "jmp": [128], "jz": [128], "call": [4096]},
+    "riscv": {"beq": [4096, 2048], "bne": [4096], "blt": [4096], "bge": [4096], "bltu": [4096], "bgeu": [4096], "jal": [1 << 20, 1 << 19, 4096], "j ": [1 << 20, 2048],
+              "la": [2048, 4096, 1 << 20], "lw": [2048, 4096], "lui": [2048, 4096]},
+    "riscv:rvc": {"beq": [4096], "jal": [1 << 20], "c.j ": [2048, 1024], "c.jal": [2048], "c.beqz": [256, 128], "la": [2048], "lui": [2048]},
+    "arm": {"b ": [1 << 25, 4096], "bl ": [1 << 25, 1 << 24], "beq": [1 << 25], "ldr": [4096, 2048], "adr": [256, 1024, 4096]},
+    "arm:thumb": {"b ": [2048, 1024], "beq ": [256, 128], "bne": [256], "bl ": [1 << 24, 1 << 22, 1 << 23, 4096], "bw": [1 << 24, 1 << 22], "beqw": [1 << 20, 1 << 18, 1 << 19],
+                  "ldr": [1024, 512], "adr": [1024]},
+}
+
+
+def edge_cases(target, max_distance):
+    t = asmgen.TARGETS[target]
+    gran = t["gran"]
+    cases = []
+    for kind, tmpl in t["refs"]:
+        dists = [d for pre, ds in EDGES[target].items() if tmpl.startswith(pre) for d in ds]
+        for R in dists:
+            if R > max_distance:
+                continue
+            if R <= 1 << 16:
+                pads = list(range(max(0, R - 8), R + 9, gran if gran > 1 else 1))
+            else:
+                pads = [R - 8, R - 4, R, R + 4]
+            for pad in pads:
+                pad = pad // gran * gran
+                for back in (False, True):
+                    fill = t["fill"][0]
+                    if back:
+                        items = [["align", 4], ["label", "l0"], ["pad", pad], ["ref", tmpl, "l0"], ["fill", fill]]
+                    else:
+                        items = [["ref", tmpl, "l0"], ["pad", pad], ["align", 4], ["label", "l0"], ["fill", fill]]
+                    for loc in (0x1000,):
+                        cases.append({
+                            "target": target,
+                            "prog": {"target": target, "objects": [{"globals": [], "sections": [{"name": "code", "items": items}]}]},
+                            "layout": {"entry": None, "memories": [{"name": "flash", "location": loc, "size": linkgen.align_up(pad + 0x200, 0x100), "inputs": [["section", "code"]]}]},
+                            "layout_form": "object",
+                            "scale": "edge_sweep",
+                        })
+    return cases
 
 
 def _worker(arg):
     from ..core import jhash
 
-    seed, n, targets = arg
+    seed, n, targets, explicit = arg
     _quiet()
     stats = Stats()
     deferred = collections.defaultdict(list)  # target -> [(bytes, address, want, det, case)]
@@ -362,6 +416,8 @@ def _worker(arg):
         cls = ["target_" + case["target"], "memories_%d" % len(case["layout"]["memories"]), "scale_" + case.get("scale", "?")]
         if info.get("rejected"):
             cls.append("link_rejected")
+        if case.get("two_stage"):
+            cls.append("partial_then_final")
         nt = bool(info.get("nontrivial"))
         stats.case(case, nt, case if nt and not stats.samples else None, classes=cls)
         _MEMO.clear()
@@ -371,7 +427,20 @@ def _worker(arg):
             deferred[case["target"]].extend((b, a, w, d, case) for b, a, w, d in defer)
         return msg
 
-    fails = hyp_search(c11_case(targets=targets), prop, n, seed, stats, classify=classify, budget_s=900)
+    fails = hyp_search(c11_case(targets=targets), prop, n, seed, stats, classify=classify, budget_s=900) if n else []
+    open_ids = open_finding_ids(PID)
+    for case in explicit:
+        try:
+            msg = prop(case)
+        except Discard as d:
+            stats.discard(d.reason)
+            continue
+        if msg:
+            kid = classify(case, msg)
+            if kid and kid in open_ids:
+                stats.known[kid] += 1
+            elif len(fails) < 6:
+                fails.append((case, msg))
     _MEMO.clear()
     # one llvm-mc run per target for all control transfers of this worker
     for target, items in deferred.items():
@@ -392,8 +461,14 @@ def _worker(arg):
 def run(ctx):
     if not relocref.LLVM_MC:
         raise HarnessError("llvm-mc not found")
-    n = ctx.scale(800, 50000)
-    args = [(subseed(ctx.seed, PID, w), n // 16, tuple(TARGETS)) for w in range(16)]
+    n = ctx.scale(480, 50000)
+    sweep = []
+    for t in TARGETS:
+        sweep += edge_cases(t, ctx.scale(1 << 22, 1 << 25))
+    # big pads last in every shard so that the shards cost about the same
+    sweep.sort(key=lambda c: c["layout"]["memories"][0]["size"])
+    args = [(subseed(ctx.seed, PID, w), n // 16, tuple(TARGETS), sweep[w::16]) for w in range(16)]
     ctx.pmap(_worker, args)
+    ctx.extra["edge_sweep_cases"] = len(sweep)
     ctx.extra["targets_covered"] = TARGETS
     ctx.extra["addends"] = "as emitted by ppci's assembler: x86_64 rel32 -4, all other relocation types 0"
